@@ -50,4 +50,5 @@ PROPS = {
     },
     "LEX": {"level": "other", "cone": [], "explanation": "internal: lexer model vs lexer.NextToken"},
     "PARSE": {"level": "other", "cone": [], "explanation": "internal: parser model vs parser.Parse"},
+    "RENDER": {"level": "other", "cone": [], "explanation": "internal: evaluator model vs plush.Render on a fixed battery"},
 }
